@@ -72,7 +72,7 @@ class PolicyModel:
         self.opt = {}  # (cat, scheme|None, option) -> value
         self.categories = set()
         # settings that travel inside pre-configured hasher objects: the weakest layer, below every configuration key
-        self.objopt = {(s, k): v for s, kw in (config.get("scheme_objects") or {}).items() for k, v in kw.items()}
+        self.objopt = {(s, k): v for s, kw in (config.get("scheme_objects") or {}).items() for k, v in kw.items() if not k.startswith("_")}
         for k, v in config.items():
             if k in ("schemes", "scheme_objects"):
                 continue
